@@ -81,6 +81,11 @@ def core_program(rng, depth=4):
         if c < 0.55:
             return f"({gint(d - 1, scope)} {gint(d - 1, scope)} {gbool(d - 1, scope)} ㅎㄷ)"
         lists = [(fi, pi, ty) for fi, fr in enumerate(reversed(scope)) for pi, ty in enumerate(fr) if isinstance(ty, tuple)]
+        if c < 0.58:              # the length of a list (literal or parameter): none of its elements is evaluated
+            if lists and rng.random() < 0.5:
+                fi, pi, _ = rng.choice(lists)
+                return f"({enc(pi)}ㅇ{enc(fi)} ㅈㄷㅎㄴ)"
+            return f"({glist(d - 1, scope)[0]} ㅈㄷㅎㄴ)"
         if c < 0.63:              # selection from a list literal / a list parameter: only the selected element is evaluated
             if lists and rng.random() < 0.5:
                 fi, pi, (_, n_, good) = rng.choice(lists)
